@@ -107,7 +107,7 @@ func (s *Spec) GoStageA(v GoVariant) map[string]string {
 	if v.Defect != "no-token" {
 		head.WriteString("type Token = simplelexer.Token\n\n")
 	}
-	head.WriteString("type Node struct{ Kids []any }\n\nfunc (n *Node) Discard() bool { return false }\n\n")
+	head.WriteString("type Node struct{ Kids []any }\n\nfunc (n *Node) Discard() bool { return false }\n\ntype Noder interface{ Discard() bool }\n\n")
 	switch v.Defect {
 	case "no-parser-struct":
 		head.WriteString("type parserImpl struct{ x int }\n\n")
@@ -115,6 +115,8 @@ func (s *Spec) GoStageA(v GoVariant) map[string]string {
 		head.WriteString("type parserImpl struct{ lox }\n\ntype otherParser struct{ lox }\n\n")
 	case "generic-parser-struct":
 		head.WriteString("type parserImpl[T any] struct {\n\tlox\n\tv T\n}\n\n")
+	case "ptr-embedded-lox":
+		head.WriteString("type parserImpl struct {\n\t*lox\n\tcount int\n}\n\n")
 	default:
 		head.WriteString("type parserImpl struct {\n\tlox\n\tcount int\n}\n\n")
 	}
@@ -125,6 +127,27 @@ func (s *Spec) GoStageA(v GoVariant) map[string]string {
 	if v.Defect == "generic-parser-struct" {
 		recv = "(p *parserImpl[T])"
 	}
+	if v.Defect == "value-receiver" {
+		recv = "(p parserImpl)"
+	}
+	// rule with at least two action methods returning *Node (for the
+	// interface/concrete return-type variants)
+	ifaceRule := ""
+	{
+		count := map[string]int{}
+		for _, m := range s.Methods(stageATypes) {
+			if m.Ret == "*Node" {
+				count[m.Rule]++
+			}
+		}
+		for _, r := range s.Rules {
+			if count[r.Name] >= 2 {
+				ifaceRule = r.Name
+				break
+			}
+		}
+	}
+	nthOfRule := map[string]int{}
 	ms := s.Methods(stageATypes)
 	for i, m := range ms {
 		params := make([]string, len(m.Params))
@@ -132,6 +155,21 @@ func (s *Spec) GoStageA(v GoVariant) map[string]string {
 			params[j] = fmt.Sprintf("a%d %s", j, t)
 		}
 		ret := m.Ret
+		nth := nthOfRule[m.Rule]
+		nthOfRule[m.Rule]++
+		if m.Rule == ifaceRule {
+			switch {
+			case v.Defect == "iface-return-first" && nth == 0:
+				ret = "Noder"
+			case v.Defect == "iface-return-last" && nth > 0:
+				ret = "Noder"
+			case v.Defect == "any-return-first" && nth == 0:
+				ret = "any"
+			}
+		}
+		if v.Defect == "any-param" && i == 0 && len(params) > 0 {
+			params[0] = "a0 any"
+		}
 		switch {
 		case v.Defect == "arity-mismatch" && i == len(ms)-1:
 			params = append(params, "extra Token")
@@ -148,6 +186,9 @@ func (s *Spec) GoStageA(v GoVariant) map[string]string {
 			zero = "nil, nil"
 		}
 		fmt.Fprintf(&body, "func %s %s(%s) %s { return %s }\n\n", recv, m.Name, strings.Join(params, ", "), ret, zero)
+	}
+	if v.Defect == "extra-methods" {
+		fmt.Fprintf(&body, "func %s helper(a Token) *Node { return nil }\n\nfunc %s On_notAnAction(a Token) (int, error) { return 0, nil }\n\nfunc (n *Node) on_top(a Token) *Node { return nil }\n\n", recv, recv)
 	}
 	if v.Defect == "orphan-method" {
 		fmt.Fprintf(&body, "func %s on_nosuchrule(a Token) *Node { return nil }\n\n", recv)
